@@ -100,6 +100,74 @@ def h_protect(f: str, probe: int, method='write_txt', aspath=False, overwrite=Tr
     reach('end')
 
 
+SEGS = ['.', '..', 'x', 'b', '']          # 'x' is the NAME of the data directory itself (detours ../x/..)
+FINALS = ['a', 'b', 'b/a', 'b/new', 'u']
+
+
+def h_detour(g1: int, g2: int, g3: int, fin: int, absolute: bool, probe: int, method='write_txt', aspath=False,
+             _gate=None, _small=False):
+    """spellings built from up to three leading segments out of {., .., x (the directory's own name), b, ''}
+    followed by a final name; optionally as an ABSOLUTE path of the data directory"""
+    assume(0 <= g1 < len(SEGS) and 0 <= g2 < len(SEGS) and 0 <= g3 < len(SEGS) and 0 <= fin < len(FINALS))
+    parts = []
+    for g in (g1, g2, g3):
+        for i, sname in enumerate(SEGS):
+            if g == i and not (sname == '' and not parts):
+                parts.append(sname)
+    final = None
+    for i, fname in enumerate(FINALS):
+        if fin == i:
+            final = fname
+    f = '/'.join(parts + [final])
+    if absolute:
+        f = '/w/x/' + f
+    w = new_world()
+    d, fa, db, fb = build(w)
+    dd = D.datadir.DataDir('/w/x', protectedpaths={'a', 'b'})
+    before_a, before_b = snap(fa), snap(db)
+    target_protected = False
+    try:
+        full = f if f.startswith('/') else '/w/x/' + f
+        parent, name, node = w._walk(full, follow_last=True)
+        if node is fa or node is db or node is fb or (node is None and parent is db):
+            target_protected = True
+    except (FileNotFoundError, NotADirectoryError):
+        pass
+    name = symfs.Path(f) if aspath else f
+    try:
+        call(dd, method, name, True)
+        raised = None
+    except Exception as e:
+        raised = e
+    na, nb = w.lookup('/w/x/a'), w.lookup('/w/x/b')
+    if na is None or not snap_same(before_a, snap(na), probe) or nb is None or not snap_same(before_b, snap(nb), probe):
+        raise Violation(f'{method}: a protected file was changed or removed through the spelling {f!r}')
+    if target_protected:
+        reach('protected-target')
+        if not isinstance(raised, OSError):
+            raise Violation(f'{method}: the spelling {f!r} denotes a protected file but the call did not raise OSError')
+    reach('end')
+
+
+def h_delete_mixed(first_protected: bool, probe: int, _gate=None, _small=False):
+    """delete_files with a protected name among user files: OSError AND nothing removed"""
+    w = new_world()
+    d, fa, db, fb = build(w)
+    dd = D.datadir.DataDir('/w/x', protectedpaths={'a', 'b'})
+    dd.write_txt('n1.txt', 'one')
+    dd.write_txt('n2.txt', 'two')
+    before = snap(d)
+    names = ['a', 'n1.txt', 'n2.txt'] if first_protected else ['n1.txt', 'a', 'n2.txt']
+    try:
+        dd.delete_files(names)
+        raise Violation('delete_files with a protected name did not raise')
+    except OSError:
+        pass
+    if not snap_same(before, snap(d), probe):
+        raise Violation('delete_files raised for a protected name but had already removed other files')
+    reach('end')
+
+
 def h_user(overwrite: bool, exists: bool, probe: int, method='write_txt', _gate=None, _small=False):
     """user files: round trip, overwrite gate, delete_files removes exactly the named ones"""
     w = new_world()
@@ -193,7 +261,60 @@ def replay_protect(cex, d):
                     open(os.path.join(dp, fn), 'rb').read()).hexdigest()
         return out
     with rp.scratch() as tmp:
-        if ob == 'P-names':
+        if ob == 'P-delete-mixed':
+            x = tmp + '/x'
+            os.makedirs(x + '/b')
+            open(x + '/a', 'w').write('p')
+            open(x + '/n1.txt', 'w').write('one')
+            open(x + '/n2.txt', 'w').write('two')
+            dd = darr.DataDir(x, protectedpaths={'a', 'b'})
+            names = ['a', 'n1.txt', 'n2.txt'] if fx['first_protected'] else ['n1.txt', 'a', 'n2.txt']
+            before = tree(x)
+            try:
+                dd.delete_files(names)
+                probs.append('did not raise')
+            except OSError:
+                pass
+            if tree(x) != before:
+                probs.append(f'delete_files({names}) raised but removed {sorted(set(before) - set(tree(x)))}')
+        elif ob == 'P-detour':
+            x = tmp + '/x'
+            os.makedirs(x + '/b')
+            open(x + '/a', 'w').write('{"protected": 1}')
+            open(x + '/b/a', 'w').write('inner protected')
+            open(x + '/u', 'w').write('{"user": 1}')
+            dd = darr.DataDir(x, protectedpaths={'a', 'b'})
+            parts = []
+            for g in (int(fx['g1']), int(fx['g2']), int(fx['g3'])):
+                if not (SEGS[g] == '' and not parts):
+                    parts.append(SEGS[g])
+            f = '/'.join(parts + [FINALS[int(fx['fin'])]])
+            if fx['absolute']:
+                f = x + '/' + f
+            prot_before = {k: v for k, v in tree(x).items() if k == 'a' or k.startswith('b/')}
+            real = os.path.realpath(os.path.join(x, f))
+            target_protected = real == x + '/a' or real == x + '/b' or real.startswith(x + '/b/')
+            name = pathlib.Path(f) if fx.get('aspath') else f
+            m = fx['method']
+            try:
+                if m == 'write_txt':
+                    dd.write_txt(name, 'new text', overwrite=True)
+                elif m == 'delete_files':
+                    dd.delete_files([name])
+                elif m == 'write_jsondict':
+                    dd.write_jsondict(name, {'n': 1}, overwrite=True)
+                else:
+                    with dd.open_file(name, m[5:]) as fh:
+                        fh.write('x')
+                raised = None
+            except Exception as e:
+                raised = e
+            prot_after = {k: v for k, v in tree(x).items() if k == 'a' or k.startswith('b/')}
+            if prot_after != prot_before:
+                probs.append(f'{m}({name!r}) changed protected files')
+            if target_protected and not isinstance(raised, OSError):
+                probs.append(f'{m}({name!r}) denotes a protected file but raised {type(raised).__name__ if raised else None}')
+        elif ob == 'P-names':
             a = darr.asarray(tmp + '/arr', [1, 2])
             r = darr.asraggedarray(tmp + '/rag', [[1]])
             for dd, names, root in ((a.datadir, ['arrayvalues.bin', './README.txt', 'x/../arraydescription.json'], tmp + '/arr'),
@@ -265,6 +386,15 @@ def obligations(tier):
               bounds=f'|f| <= {L} over the alphabet {{a, b, ., /}} (covers "./a", "a/", "b/a", "b/..", ".//a", '
                      f'"b/../a" (len 6: outside), ...), wrapped as str or Path; protected = {{file "a", directory "b"}}; '
                      f'12 writer entry points; outside: longer names, symlinked directories, case-folding file systems'),
+           Ob('P-detour', 'h_detour',
+              splits=[dict(method=m, aspath=ap) for m in ('write_txt', 'delete_files', 'write_jsondict', 'open_w')
+                      for ap in (False, True)],
+              timeout=T, replay='replay_protect', must_reach=('end', 'protected-target'),
+              sym='g1, g2, g3 (leading segments), fin (final name), absolute, probe',
+              bounds="spellings = up to 3 segments from {., .., <own directory name>, b, ''} + final in {a, b, b/a, b/new, u}, "
+                     "relative or absolute: covers '../x/a', 'b/../a', './/b/a', '/w/x/a' ..."),
+           Ob('P-delete-mixed', 'h_delete_mixed', splits=[{}], timeout=120, replay='replay_protect',
+              sym='first_protected, probe', bounds='delete_files([user, protected, user]) in both orders'),
            Ob('P-user', 'h_user', splits=[dict(method=m) for m in ('write_txt', 'write_jsondict')],
               timeout=120, must_reach=('end', 'refused', 'written'), replay=None, sym='overwrite, exists',
               bounds='user file round trip / overwrite gate / delete_files'),
